@@ -453,6 +453,16 @@ class CallMixin(object):
                 if target:
                     break
             if target is None:
+                hook = self.spec.hints.get('super_builtin')
+                if hook is not None:
+                    # a method of a base class outside the repository (dict, deque ...): sidecar model
+                    nodes = list(n.args) + [k.value for k in n.keywords]
+                    for s2, vs in self.evs(nodes, s):
+                        if is_exc(vs):
+                            yield s2, vs
+                            continue
+                        yield from hook(self, recv, n.func.attr, vs[:len(n.args)], s2, n)
+                    continue
                 raise Unsupported('super().%s not found at line %d' % (n.func.attr, n.lineno))
             c, sdef = target
             nodes = list(n.args) + [k.value for k in n.keywords]
